@@ -17,9 +17,17 @@ package deps
 //@   ensures !isNil(err) && !typeIs(err, "*res.Error")
 //@ trusted func debug.Stack() (b []byte)
 //@   ensures true
+//@ # JSON encoding of a Go string: jlen(s) bytes, the k-th being jchar(s, k); at least the two quotes
+//@ uninterpreted func jlen(s string) int
+//@   native len(verifJSON(s))
+//@ uninterpreted func jchar(s string, k int) int
+//@   native vAt(verifJSON(s), k)
 //@ trusted func json.Marshal(v interface{}) (data []byte, err error)
+//@   modifies alloc, bytes
+//@   ensures fresh: freshbytes(data)
 //@   ensures imp(isNil(err), len(data) >= 1 && ref(data) != 0)
 //@   ensures imp(!isNil(err), !typeIs(err, "*res.Error"))
+//@   ensures str: imp(typeIs(v, "string"), isNil(err) && len(data) == jlen(unbox(v, "string")) && jlen(unbox(v, "string")) >= 2 && forall(k, 0, len(data), data[k] == jchar(unbox(v, "string"), k)))
 //@ # Unmarshal writes only through its target; fields absent from the JSON text keep their value
 //@ trusted func json.Unmarshal(data []byte, v interface{}) (err error)
 //@   modifies *v, alloc
@@ -72,3 +80,19 @@ package deps
 //@   ensures true
 //@ trusted func (p sync.Pool) Put(x interface{})
 //@   ensures true
+
+//@ trusted func bytes.Equal(a []byte, b []byte) (r bool)
+//@   ensures r == (bytes(a) == bytes(b))
+//@ trusted func bytes.HasPrefix(s []byte, prefix []byte) (r bool)
+//@   ensures r == (len(prefix) <= len(s) && bytes(s)[0:len(prefix)] == bytes(prefix))
+//@ # RawMessage.UnmarshalJSON copies the data (append to the truncated receiver)
+//@ trusted func (m *json.RawMessage) UnmarshalJSON(data []byte) (err error)
+//@   modifies alloc, bytes, *m
+//@   ensures imp(m != nil, isNil(err) && bytes(*m) == bytes(data) && (ref(*m) == old(ref(*m)) || ref(*m) >= old(nextRef()) || len(data) == 0) && bytesframe(*m))
+
+//@ # json.Unmarshal into a store.valueObject: RawMessage members are nil or a copy of a complete JSON value
+//@ trusted func json.UnmarshalValueObject(data []byte, v interface{}) (err error)
+//@   modifies *v, alloc, bytes
+//@   ensures imp(!isNil(err), !typeIs(err, "*res.Error"))
+//@   ensures raw: imp(typeIs(v, "*store.valueObject") && ref(ptrOf(v, "*store.valueObject").Data) != 0, len(ptrOf(v, "*store.valueObject").Data) >= 1 && ref(ptrOf(v, "*store.valueObject").Data) >= old(nextRef()))
+//@   ensures unchanged("bytes") || true
